@@ -72,8 +72,10 @@ def cases():
         for inp in (b"", b"A"):
             out.append(dict(kind="status", src="0(%d)" % v, text="proc main() is 0(%d)" % v, value=v, stdin=inp))
     for nm, text in (("main-returns", "proc main() is skip"), ("stop", "proc main() is stop"), ("echo-exit", "proc main() is 0(2(0))"),
-                     ("write-then-exit", "proc main() is { 1('h', 0); 1('i', 0); 0(3) }"), ("fib", X_ACC["fib"])):
-        for inp in ((b"\x05", b"\x0a") if nm == "fib" else (b"", b"A", b"\x05")):
+                     ("write-then-exit", "proc main() is { 1('h', 0); 1('i', 0); 0(3) }"), ("fib", X_ACC["fib"]),
+                     ("input-sign", "proc main() is var c; { c := 2(0); if c < 0 then 0(7) else if c > 127 then 0(9) else 0(3) }"),
+                     ("input-eq-255", "proc main() is var c; var n; { n := 0; c := 2(0); while ~(c = 255) do { n := n + 1; c := 2(0) }; 0(n) }")):
+        for inp in ((b"\x05", b"\x0a") if nm == "fib" else (b"", b"A", b"\x05", b"\x80", b"\xc8", b"\xff", b"ab\x80c")):
             out.append(dict(kind="xrun", src=nm, text=text, stdin=inp))
     for name, text in X_REJ.items():
         out.append(dict(kind="xrun-rejected", src=name, text=text, stdin=b""))
